@@ -1204,6 +1204,8 @@ func c19sRun(env *c19sEnv, tc c19sCase) (c19sVerdict, error) {
 		return c19sClientSide(env, tc)
 	case "server-raw":
 		return c19sRawSide(env, tc)
+	case "server-get":
+		return c19sGetSide(env, tc)
 	}
 	return c19sServerSide(env, tc)
 }
@@ -1256,6 +1258,18 @@ func c19sEnumerate(thorough bool, visit func(tc c19sCase) bool) {
 					}
 				}
 			}
+		}
+	}
+	// the message in the URL: hand-built Connect GET requests (c19_get_test.go), uncompressed and
+	// compressed with every compression, at the unit's small limits and at the limit that the
+	// runner really configures (200 KiB; JSON there in the thorough tier only)
+	for _, limit := range append([]int{c19gRunnerServerLimit}, rawLimits...) {
+		getCodecs := codecs
+		if limit > 16384 && !thorough {
+			getCodecs = []string{"proto"}
+		}
+		if !c19gEnumerate(limit, []int{1, 2}, getCodecs, compressions, pads, ks, visit) {
+			return
 		}
 	}
 	for _, side := range []string{"server", "client"} {
@@ -1349,7 +1363,9 @@ func TestVerifC19Sharp(t *testing.T) {
 		"to the real server with that limit; side=client: the limit of the real client is (encoded size of the largest response) - k; every tuple is distinct; " +
 		"non-trivial = every case (each one sits on the boundary: |k| <= 1); " +
 		"side=server-raw: a plain net/http client (HTTP/1.1 and h2c) sends hand-built Connect-streaming and gRPC-Web request streams (client-stream, half-duplex bidi) of 2 and 3 messages, " +
-		"every message one of {a few bytes, limit-1, limit} and the last one also limit+1 (48 streams), with and without a declared Content-Length: accepted with every request echoed iff no message exceeds the limit, else resource_exhausted"
+		"every message one of {a few bytes, limit-1, limit} and the last one also limit+1 (48 streams), with and without a declared Content-Length: accepted with every request echoed iff no message exceeds the limit, else resource_exhausted; " +
+		"side=server-get: a plain net/http client (HTTP/1.1 and h2c) calls IdempotentUnary by Connect GET with a hand-built URL (?connect=v1&encoding=..&base64=1&message=..[&compression=..]), " +
+		"message of limit+k encoded bytes, uncompressed and compressed (6 compressions) x proto/JSON x compressible/incompressible padding, limits 1024, 200 [thorough 128, 16384] and the runner's real server limit 204800: same truth table"
 
 	env := &c19sEnv{servers: map[string]*c19sServer{}, client: c19sStartClient()}
 	defer env.shutdown()
